@@ -140,8 +140,19 @@ def numberlike_productions():
     return st.tuples(ctx, prefix, digit, run, suffix).map(lambda t: t[0] % (t[1] + t[2] * t[3] + t[4]))
 
 
+def boundary_productions():
+    """An indicator or document marker followed DIRECTLY by each kind of separator - space, tab, every line break character,
+    the end of the input - and by a non-separator, at the start of the input, of a line and after an entry."""
+    ind = st.sampled_from(["-", "?", ":", "---", "...", "- -", "? -", "k:", "- k:", "#", "|", ">", "&a", "*a", "!t", "- ?", "[a]:", "'q':", "\"q\":"])
+    after = st.sampled_from(["", " ", "\t", "\n", "\r", "\r\n", "\x85", "\u2028", "\u2029", "\x00", "a", " a", "\ta", "\n a", "\u2028a", "\u2029 a", "\x85a", "\ufeff"])
+    before = st.sampled_from(["", "", "a\n", "k: v\n", "- x\n", "--- a\n", "a\n...\n", "[a, ", "k:\n  ", "- ", "? ", "\ufeff"])
+    tail = st.sampled_from(["", "", "\n", "b\n", "\n- b\n", "\n...\n", "]"])
+    return st.tuples(before, ind, after, tail).map("".join)
+
+
 def productions():
-    return st.one_of(numberlike_productions(), escape_productions(), directive_productions(), header_productions(), tag_anchor_productions(), structure_productions())
+    return st.one_of(numberlike_productions(), escape_productions(), directive_productions(), header_productions(), tag_anchor_productions(), structure_productions(),
+                     boundary_productions())
 
 
 def all_truncations(text):
